@@ -61,6 +61,8 @@ def random_chain(rnd, n_elems, *, want_selflock=None, with_current=None, stress=
         data = gear_data(rnd) if stress else {}
         if k == 'SpurGear':
             e['teeth'] = rnd.randint(10, 80)
+            if rt == 'gear' and rnd.random() < 0.12:
+                e['teeth'] = prev['teeth']              # an idler pair: a real mating (efficiency < 1) whose ratio is exactly 1
             if rt == 'gear':
                 # same module as the driver (or one of them without); contact stress needs both complete
                 for f in ('module',):
@@ -73,6 +75,8 @@ def random_chain(rnd, n_elems, *, want_selflock=None, with_current=None, stress=
             e.update(data)
         elif k == 'HelicalGear':
             e['teeth'] = rnd.randint(10, 80)
+            if rt == 'gear' and rnd.random() < 0.12:
+                e['teeth'] = prev['teeth']
             if rt == 'gear':
                 e['helix_deg'] = prev['helix_deg']
                 if prev.get('module') is not None and 'module' in data:
